@@ -298,7 +298,8 @@ for val in spec["valuations"]:
     objs.append(mod.R2(arr=np.array([[1, 2, 3], [4, 5, 6]], dtype=np.int32), vec=[4, 5, 6], vv=[[1], [2, 3]], ni=1, ns="y",
                        inner=mod.Inner(q=11, w=1), mp={"a": 1, "b": 2}, f=1.5, i=7, k=40, two=2.0,
                        opt=conv("opt", val["opt"]), un=conv("un", val["un"]), nun=conv("nun", val["nun"]),
-                       fa=np.array([[1, 2, 3], [4, 5, 6]], dtype=np.int32), fv=[7, 8, 9], da=np.array([[1, 2], [3, 4]], dtype=np.int32)))
+                       fa=np.array([[1, 2, 3], [4, 5, 6]], dtype=np.int32), fv=[7, 8, 9], da=np.array([[1, 2], [3, 4]], dtype=np.int32),
+                       tr=np.arange(1, 21, dtype=np.int32).reshape(4, 5), nx="x"))
 out = []
 for j, o in enumerate(objs):
     row = {}
@@ -350,7 +351,7 @@ def second_family(c, sc, yardl, home):
         "  overrideArrayHeader: yardl_shim_ndarray.h\npython:\n  outputDir: ../py\n  generateNDJson: false\nmatlab:\n  outputDir: ../matlab\n")
     lines = ["Inner: !record", "  fields:", "    q: int", "    w: int", "R2: !record", "  fields:", "    arr: int[x, y]", "    vec: int*", "    vv: int**",
              "    ni: int", "    ns: string", "    inner: Inner", "    mp: string->int", "    f: float", "    i: int", "    k: long", "    two: float",
-             "    opt: int?", "    un: [int, float]", "    nun: [null, int, float]", "    fa: int[x:2, y:3]", "    fv: int*3", "    da: int[]", "  computedFields:"]
+             "    opt: int?", "    un: [int, float]", "    nun: [null, int, float]", "    fa: int[x:2, y:3]", "    fv: int*3", "    da: int[]", "    tr: int[y, x]", "    nx: string", "  computedFields:"]
     for n, x in enumerate(cases):
         x["id"] = "d%d" % n
         x["text"] = "\n".join(field_yaml(x["id"], x["e"]))
